@@ -39,6 +39,7 @@ type FuncContract struct {
 	Inline   bool
 	Pure     bool // result is a deterministic function of leaf args
 	Trusted  bool // contract assumed, body not verified
+	Uses     []string // lemmas assumed (proved separately)
 	Asserts  []*Clause // "assert before call <callee>" clauses etc (unused)
 	File     string
 	Line     int
@@ -83,11 +84,13 @@ type Contracts struct {
 	Lemmas  []*Lemma
 	Imports map[string]map[string]string // pkgpath -> alias -> path
 	InlineKeys map[string]bool
+	GhostFields map[string]map[string]string // pkgpath.Type -> field -> type expr
+	GhostFieldPkg map[string]string
 }
 
 func NewContracts() *Contracts {
 	return &Contracts{Funcs: map[string]*FuncContract{}, Specs: map[string]*SpecFunc{}, Ghosts: map[string]*GhostVar{},
-		Imports: map[string]map[string]string{}, AxiomPkg: map[*Clause]string{}, InlineKeys: map[string]bool{}}
+		Imports: map[string]map[string]string{}, AxiomPkg: map[*Clause]string{}, InlineKeys: map[string]bool{}, GhostFields: map[string]map[string]string{}, GhostFieldPkg: map[string]string{}}
 }
 
 var labelRe = regexp.MustCompile(`^([A-Za-z_][A-Za-z0-9_]*):\s+(.*)$`)
@@ -285,6 +288,21 @@ func (cs *Contracts) LoadContractText(text, path, pkgPath string) error {
 			cs.Imports[pkgPath][fields[1]] = fields[2]
 			cur, curLemma = nil, nil
 		case "ghost":
+			if len(fields) >= 4 && fields[1] == "field" {
+				// ghost field Type.name type
+				tf := strings.SplitN(fields[2], ".", 2)
+				if len(tf) != 2 {
+					return fmt.Errorf("%s:%d: ghost field Type.name type", base, it.n)
+				}
+				k := pkgPath + "." + tf[0]
+				if cs.GhostFields[k] == nil {
+					cs.GhostFields[k] = map[string]string{}
+				}
+				cs.GhostFields[k][tf[1]] = strings.Join(fields[3:], " ")
+				cs.GhostFieldPkg[k] = pkgPath
+				cur, curLemma = nil, nil
+				continue
+			}
 			// ghost var name type
 			if len(fields) < 4 || fields[1] != "var" {
 				return fmt.Errorf("%s:%d: ghost var name type", base, it.n)
@@ -420,6 +438,10 @@ func (cs *Contracts) LoadContractText(text, path, pkgPath string) error {
 			}
 			for _, k := range fields[1:] {
 				cur.Checks[k] = true
+			}
+		case "uses":
+			if cur != nil {
+				cur.Uses = append(cur.Uses, fields[1:]...)
 			}
 		case "pure":
 			if cur != nil {
